@@ -99,3 +99,78 @@ def _same_obj(ex, p, a, b):
     return isinstance(a, Obj) and isinstance(b, Obj) and a.lz == b.lz
 
 
+
+
+def dispatch_obligation(run):
+    """convert_actions + CheckedAction::new_*: every unchecked action is handed to the constructor of ITS OWN kind, exactly once, with the transaction's signer
+    (and, for the deposit-producing kinds, the transaction id and the action's position in the transaction)"""
+    from vlib import loader
+    from vlib.seqworld import SCALARS
+    VARIANTS = {'RollupDataSubmission': 'RollupDataSubmission', 'Transfer': 'Transfer', 'ValidatorUpdate': 'ValidatorUpdate', 'SudoAddressChange': 'SudoAddressChange', 'Ibc': 'IbcRelay',
+                'IbcSudoChange': 'IbcSudoChange', 'Ics20Withdrawal': 'Ics20Withdrawal', 'IbcRelayerChange': 'IbcRelayerChange', 'FeeAssetChange': 'FeeAssetChange',
+                'InitBridgeAccount': 'InitBridgeAccount', 'BridgeLock': 'BridgeLock', 'BridgeUnlock': 'BridgeUnlock', 'BridgeSudoChange': 'BridgeSudoChange', 'BridgeTransfer': 'BridgeTransfer',
+                'FeeChange': 'FeeChange', 'RecoverIbcClient': 'RecoverIbcClient', 'CurrencyPairsChange': 'CurrencyPairsChange', 'MarketsChange': 'MarketsChange'}
+
+    def h_ctor(ctx):
+        m_ = _re.search(r'Checked(\w+?)(Impl)?(::<[^>]*>)?::new(::<.*>)?$', ctx.callee)
+        kind = m_.group(1)
+        args = [ctx.ex.deref_val(ctx.st, a) for a in ctx.args]
+        ctx.st.log.append(('ctor', kind, args))
+        res = Obj('Checked' + kind, kind='opaque'); res.attrs['ident'] = ('checked', kind, args[0].attrs.get('ident') if isinstance(args[0], Obj) else None)
+        okv = z3.Bool(f'ctor_ok_{sum(1 for e in ctx.st.log if e[0] == "ctor")}')
+        alts = [(okv, (lambda s: ok(s.tr(res) if False else res))), (z3.Not(okv), (lambda s: err(Obj('eyre::Report', kind='error'))))]
+        if 'async' in ctx.ret_ty or 'Future' in ctx.ret_ty:
+            return [(None, M.thunk_future(lambda ex_, s2, fut: alts))]
+        return alts
+    hooks = [(_re.compile(r'^(?![^<]*Error)(checked_actions::[\w:]*::)?Checked(?!Action\b)(?!Transaction\b)\w+?(Impl)?(::<[^>]*>)?::new(::<.*>)?$'), h_ctor),
+             (_re.compile(r'ActionName>::name$|::name$'), lambda ctx: [(None, Obj('name', kind='opaque'))]),
+             (_re.compile(r'CheckedActionInitialCheckError::new$'), lambda ctx: [(None, Obj('CheckedActionInitialCheckError', kind='error'))])]
+    ex = loader.load(['astria-sequencer', 'astria-core'], scalar_types=SCALARS, hooks=hooks, dep_adts=['tendermint'])
+    f = ex.find(r'(^|::)convert_actions$')
+    a = ex.adts.lookup('astria_core::protocol::transaction::v1::action::Action') or ex.adts.lookup('Action')
+    run.bound(transactions='one action of every kind, alone and as the second of two actions; constructors of the checked actions (decided in C02-N) are logging oracles that may fail')
+    signer = z3.BitVec('tx_signer', 160); txid = z3.BitVec('tx_id', 256)
+    n = 0
+    for variant, kind in VARIANTS.items():
+        for pos in (0, 1):
+            acts = []
+            if pos == 1:
+                first = Obj('astria_core::protocol::transaction::v1::action::Action'); first.discr = 'Transfer'; fa = Obj('Transfer', kind='opaque'); fa.attrs['ident'] = 'first_action'; first.fields[('Transfer', 0)] = fa
+                acts.append(first)
+            act = Obj('astria_core::protocol::transaction::v1::action::Action'); act.discr = variant
+            inner = Obj(kind, kind='opaque'); inner.attrs['ident'] = 'the_action'; act.fields[(variant, 0)] = inner
+            acts.append(act)
+            st = ex.start(f, [M.new_vec('Vec<Action>', acts), signer, txid, B.cell(Obj('S', kind='cell'))])
+            for i, p in enumerate(run.explore(ex, st, poll=True, allow_havoc=(r'^Arguments::|fmt::',))):
+                lab = f'[{variant} at position {pos}, path {i}]'
+                if p.kind != 'return':
+                    run.prove(f'no panic {lab}', p.pc, z3.BoolVal(False), detail=p.info); continue
+                n += 1
+                ctors = [e for e in p.log if e[0] == 'ctor']
+                mine = [e for e in ctors if isinstance(e[2][0], Obj) and e[2][0].attrs.get('ident') == 'the_action']
+                kind_ok = lambda k: k == kind or (kind == 'IbcRelay' and k == 'IbcRelay')
+                cl = [z3.BoolVal(len(mine) <= 1), z3.BoolVal(all(kind_ok(e[1]) for e in mine))]
+                for e in mine:
+                    extra = e[2][1:]
+                    bvs = [x for x in extra if z3.is_bv(x)]
+                    if kind != 'RollupDataSubmission':
+                        cl.append(z3.BoolVal(any(z3.is_bv(x) and x.size() == 160 for x in bvs)))
+                        cl += [x == signer for x in bvs if x.size() == 160]
+                    cl += [x == txid for x in bvs if x.size() == 256]
+                    if kind in ('BridgeLock', 'BridgeTransfer'):
+                        cl.append(z3.BoolVal(any(x.size() == 256 for x in bvs) and any(x.size() == 64 for x in bvs)))
+                        cl += [x == z3.BitVecVal(pos, 64) for x in bvs if x.size() == 64]
+                kindr, r = A.poll_result(p)
+                if kindr == 'Ok':
+                    out = ex.deref_val(p, r.fields[('Ok', 0)]).attrs['items']
+                    cl.append(z3.BoolVal(len(out) == len(acts) and len(mine) == 1))
+                    last = ex.deref_val(p, out[-1]) if out else None
+                    payload = [v for k_, v in last.fields.items()] if isinstance(last, Obj) else []
+                    pv = ex.deref_val(p, payload[0]) if payload else None
+                    if isinstance(pv, Obj) and pv.kind == 'box':          # large variants are boxed
+                        pv = ex.deref_val(p, pv.fields[('in', 0)])
+                    cl.append(z3.BoolVal(isinstance(pv, Obj) and pv.attrs.get('ident', (None,))[0] == 'checked' and pv.attrs['ident'][2] == 'the_action'))
+                run.prove(f'the action goes to the constructor of its own kind, once, with the transaction signer (and id / position where a deposit may result); the checked action in the result is the one built from it {lab}', p.pc, z3.And(*cl))
+    if n < 40:
+        raise Inconclusive(f'vacuity: {n} paths')
+    run.require_reached(*run.cur.reach)
